@@ -32,7 +32,7 @@ def metamorphic(ctx, run):
                               {"kind": "monitor", "ops": run.ops[run.start[i]:i + 1], "impl_out": a, "harness": au_common.HARNESS}, found_input=True)
                 return stats
             continue
-        if not op.startswith("q "):
+        if not op.startswith("q ") or a == "dead":
             continue
         r = kv(op).get("r")
         if a == "err before-db":
